@@ -728,6 +728,7 @@ const QVector<ObjectType> &objectTypes()
     return t;
 }
 
+// (Plans with map = -1 have one slot per field: see Lattice in spec/Codec.tla.)
 // A plan of Codec.tla has K slots; field j of a type with more fields takes the value of slot
 // digit_map(j) (the map-th base-K digit of j), so that over the maps 0..ceil(log_K n)-1 every pair
 // of fields receives every pair of slot values.
@@ -750,7 +751,8 @@ QJsonObject objectCase(Ctx &ctx, const QString &cls, int map, const QJsonArray &
     QVector<PlanValue> pv(t->fields.size());
     QJsonArray assigned;
     for (int j = 0; j < pv.size(); j++) {
-        const auto slot = vals[(j / div) % K];
+        // map < 0: the plan names every field itself (presence lattice: empty, singletons, all-but-one, all)
+        const auto slot = map < 0 ? vals[j % K] : vals[(j / div) % K];
         int c = slot.isString() ? classNames().indexOf(slot.toString()) : -1;
         pv[j].cls = c;
         if (c >= 0) {
